@@ -178,7 +178,16 @@ func (r *repository) addRulesTo(tree *radixtree.Tree[rule.Route], rules []rule.R
 
 func (r *repository) removeRulesFrom(tree *radixtree.Tree[rule.Route], tbdRules []rule.Rule) error {
 	for _, rul := range tbdRules {
+		// a single delete removes all routes of the rule registered for the given path
+		deleted := make(map[string]struct{})
+
 		for _, route := range rul.Routes() {
+			if _, ok := deleted[route.Path()]; ok {
+				continue
+			}
+
+			deleted[route.Path()] = struct{}{}
+
 			if err := tree.Delete(
 				route.Path(),
 				radixtree.ValueMatcherFunc[rule.Route](func(route rule.Route) bool {
